@@ -375,7 +375,8 @@ func runGenerator(sc *Scenario) (res Result) {
 		synctest.Wait()
 		// after a cancel Emit may still win the send arm while its buffer has room (a ready select arm is picked at
 		// random); once the buffer is full only the cancel arm is left: capacity + a margin of ticks is a sound horizon
-		time.Sleep(time.Duration(sc.Caps0()+12) * freq)
+		// (both the value and the error channel have `capacity` slots, a call may take up to 3/4 of a tick: 4*capacity+32 ticks)
+		time.Sleep(time.Duration(4*sc.Caps0()+32) * freq)
 		synctest.Wait()
 	}
 	check := func() string {
